@@ -14,6 +14,7 @@ R20.3  validated-return functions (enum member names): the return is dominated b
 R20.2  de-duplication soundness per namespace: membership test in an accumulating set, rename in a loop until unused,
        the final name recorded; sites: dataclass fields, enum members, class names, module stems, operation methods,
        operation parameters
+R20.11 two inline schemas with the same made-up name are kept apart (name tied to the document node)                                   [= R2.21]
 """
 from __future__ import annotations
 
@@ -107,6 +108,9 @@ def run(repo: Repo, rep: Report, tier: str) -> None:
     from rules.c02 import rule_invented_names_avoid_declared
 
     rule_invented_names_avoid_declared(repo, rep, "R20.10")
+    from rules.c02 import rule_invented_names_are_per_node
+
+    rule_invented_names_are_per_node(repo, rep, "R20.11")
     # ---------------------------------------------------------------- R20.3 validated returns
     eg = repo.module("visit.model.enum_generator").classes.get("EnumGenerator")
     if eg is None:
